@@ -1064,10 +1064,13 @@ func sysrun(rec *ab.Recorder, spec string, stats map[string]int) {
 			}
 		}()
 		switch f[0] {
-		case "vectoradd":
+		case "vectoradd", "vectoradd-um":
 			b := vectoradd.NewBenchmark(d)
 			b.Width, b.Height = uint32(size), 64
 			b.SelectGPU(gpus)
+			if f[0] == "vectoradd-um" { // unified memory: pages migrate on demand, the driver drains and restarts the RDMA engines
+				b.SetUnifiedMemory()
+			}
 			b.Run()
 		case "matrixtranspose":
 			b := matrixtranspose.NewBenchmark(d)
